@@ -27,6 +27,7 @@ RULE = (
     "transferred a DigitalRFReader on the destination returns the same blocks as one on the source for every "
     "transferred file's window. Non-trivial: a time window or a channel list on a tree with >= 2 channels."
 )
+RULE += ' Since rounds 7-8: destinations holding stale files of equal size and time, read-only sources, channel lists naming nothing, prefix-related channel names.'
 ASSUMPTIONS = ["placeholder channels hold empty files; only the channel 'real' is opened by a reader"]
 FLOORS = {"nontrivial": 0.5}
 REAL_T0 = 1700000000  # multiple of 10
